@@ -456,6 +456,7 @@ impl Global {
         let id = self.id;
         let strict = self.strict;
         let max_shrink = self.tier.pick(1500u32, 6000u32);
+        let max_shrink_ms = self.tier.pick(30_000u32, 120_000u32);
         std::thread::scope(|sc| {
             for w in 0..WORKERS {
                 let seed = self.stage_seed(stage, w);
@@ -467,6 +468,9 @@ impl Global {
                     cfg.cases = per as u32;
                     cfg.failure_persistence = None;
                     cfg.max_shrink_iters = max_shrink;
+                    // minimisation only: a failing case stays a failing case however far it was shrunk. Without the
+                    // time box the flat-mapped strategies of long op sequences can shrink for tens of minutes.
+                    cfg.max_shrink_time = max_shrink_ms;
                     cfg.rng_algorithm = RngAlgorithm::ChaCha;
                     cfg.rng_seed = RngSeed::Fixed(u64::from_le_bytes(seed[0..8].try_into().unwrap()));
                     cfg.verbose = 0;
